@@ -66,6 +66,14 @@ inline const char *stop_name(Stop s) {
   }
 }
 
+inline bool state_has_large_value(const State &s, unsigned bits = 40) {
+  z_number lim = z_number(1) << z_number((int64_t)bits);
+  for (auto &kv : s.num)
+    if (kv.second > lim || kv.second < -lim)
+      return true;
+  return false;
+}
+
 struct Observer {
   virtual ~Observer() {}
   virtual void block_entry(const cfg_t &, const label_t &, const State &) {}
